@@ -730,7 +730,7 @@ func genC19(t *rapid.T) *C19Plan {
 	return p
 }
 
-const c19Rule = "live mode: the real Node.Run against a reactive scripted peer on loopback TCP (serves headers/blocks from a generated chain with transactions, pings every 40 ms, optional inv/tx stream once in sync); at a logical trigger (while connecting, mid-handshake, k-th header request, k-th block served, inside the k-th handler callback, some ms after in-sync, or after streamed transactions were written at a block and then mined) Stop is requested or the connection is closed/reset, in a third of the plans with one storage write / read / output fetch after the trigger taking 60-400 ms longer so that it is in flight during the shutdown or reconnect; oracle: Stop and Run return (30 s), no callback starts after Stop returned, a fresh node reloads exactly the chain / unconfirmed set / peers, after a lost connection the node reconnects with its stored tip, resumes to the peer's tip and never re-announces a height; non-trivial = the trigger lies strictly inside the protocol exchange (not trigger-not-reached); distinct by plan hash; schedules are sampled by the Go scheduler, not enumerated"
+const c19Rule = "live mode: the real Node.Run against a reactive scripted peer on loopback TCP (serves headers/blocks from a generated chain with transactions, pings every 40 ms, optional inv/tx stream once in sync); at a logical trigger (while connecting, mid-handshake, k-th header request, k-th block served, inside the k-th handler callback, some ms after in-sync, or after streamed transactions were written at a block and then mined) Stop is requested or the connection is closed/reset, in a third of the plans with one storage write / read / output fetch after the trigger taking 60-400 ms longer so that it is in flight during the shutdown or reconnect; oracle: Stop and Run return (30 s), no callback starts after Stop returned, a fresh node reloads exactly the chain / unconfirmed set / peers, after a lost connection the node reconnects with its stored tip, resumes to the peer's tip and never re-announces a height; a verdict counts when the plan fails again with the same key when run on its own (two more tries); non-trivial = the trigger lies strictly inside the protocol exchange (not trigger-not-reached); distinct by plan hash; schedules are sampled by the Go scheduler, not enumerated"
 
 func TestC19Live(t *testing.T) {
 	rep := verifkit.NewReport("C19", "TestC19Live", c19Rule)
